@@ -849,7 +849,7 @@ Section ResidPrefix.
     = idx_run body w (fun s a => Ok (resid_cb k (mp_eff mp w 0) (combine xs ys) s a)) csum0 (combine xs ys).
   Proof.
     intros Hw Hl. rewrite idx_run_pure by exact Hw.
-    unfold ts_vregx_resid, rolling2_apply_idx_to, rolling2_apply_idx_default.
+    unfold ts_vregx_resid. cbv zeta. rewrite rolling2_apply_idx_default_pos by exact Hw. unfold rolling2_apply_idx_to.
     replace (length ys <? length xs) with false by (symmetry; apply Nat.ltb_ge; lia). reflexivity.
   Qed.
 
